@@ -1347,7 +1347,7 @@ impl fmt::Display for TableFactor {
             } => {
                 write!(f, "{name}")?;
                 if !partitions.is_empty() {
-                    write!(f, "PARTITION ({})", display_comma_separated(partitions))?;
+                    write!(f, " PARTITION ({})", display_comma_separated(partitions))?;
                 }
                 if let Some(args) = args {
                     write!(f, "(")?;
